@@ -81,6 +81,8 @@ func c18Letters(limit int) []c18Letter {
 		return pgproto.Cat(pgproto.Parse("t", "later"), pgproto.Bind("t", "t", nil, vals, nil), pgproto.Execute("t", 0), pgproto.Sync())
 	}
 	ls = append(ls,
+		c18Letter{"a prepared statement whose first execution fails, bound and executed again with other values", pgproto.Cat(pgproto.Parse("g", "later-fail once"), pgproto.Bind("g1", "g", nil, [][]byte{filler(30, 61), filler(9, 62)}, nil), pgproto.Execute("g1", 0), pgproto.Sync(),
+			pgproto.Bind("g2", "g", nil, [][]byte{filler(30, 63), filler(9, 64)}, nil), pgproto.Execute("g2", 0), pgproto.Sync(), pgproto.Bind("g3", "g", nil, [][]byte{filler(12, 65)}, nil), pgproto.Execute("g3", 0), pgproto.Sync())},
 		c18Letter{"failing Execute, then discarded Flush/Close/Flush, Sync", pgproto.Cat(pgproto.Parse("f", "later-fail A"), pgproto.Bind("f", "f", nil, [][]byte{filler(40, 60)}, nil), pgproto.Execute("f", 0), pgproto.Flush(), pgproto.Close('P', "nothing"), pgproto.Flush(), pgproto.Sync())},
 		c18Letter{"failing COPY query, pipelined CopyDone + stray Sync", pgproto.Cat(pgproto.Query("cp-fail"), pgproto.CopyDone(), pgproto.Sync(), pgproto.CopyDone())},
 		c18Letter{fmt.Sprintf("COPY%v", copyA), burst(copyA, 50)},
@@ -114,7 +116,8 @@ type c18Kept struct {
 }
 
 type c18State struct {
-	kept []*c18Kept
+	kept       []*c18Kept
+	failedOnce bool
 }
 
 func (st *c18State) keepString(what string, s string) {
@@ -224,6 +227,14 @@ func c18Run(limit int, hist []c18Letter) explore.Result {
 			if strings.HasPrefix(q, "later-fail") {
 				for i, p := range params {
 					st.keepBytes(fmt.Sprintf("bind parameter %d of %s", i, clip(q)), p.Value())
+				}
+				if len(params) > 0 {
+					st.keepParams("parameter list of the failed "+clip(q), params)
+				}
+				if strings.HasSuffix(q, "once") && !st.failedOnce {
+					st.failedOnce = true
+				} else if strings.HasSuffix(q, "once") {
+					return w.Complete("OK") // (the same prepared statement succeeds when it is bound and executed again)
 				}
 				return errors.New("statement fails inside the callback")
 			}
